@@ -253,6 +253,15 @@ Unix → DateTime → Unix is `datetime_unix_partial` below, which needs one and
 theorem datetime_to_unix_and_back (off : Int) (v : Nat) (t : Int) (h : timestamp off v = .ok t) :
     fromTimestamp off t = .ok v := fromTimestamp_timestamp off v t h
 
+open DateTime in
+/-- hence `timestamp()` never maps two different DateTime values to one Unix time (fixed offset) -/
+theorem datetime_timestamp_injective (off : Int) (v v' : Nat) (t : Int)
+    (h : timestamp off v = .ok t) (h' : timestamp off v' = .ok t) : v = v' := by
+  have a := fromTimestamp_timestamp off v t h
+  have b := fromTimestamp_timestamp off v' t h'
+  rw [a] at b
+  exact Except.ok.inj b
+
 /-- the hypothesis is satisfiable: 2024-02-29T12:34:56 nine hours east of UTC -/
 example : DateTime.timestamp 32400 (DateTime.make ⟨2024, 2, 29, 12, 34, 56⟩) = .ok 1709177696 := by decide
 
